@@ -32,6 +32,12 @@ Theorem C10_permute_schedule (dims : list nat) : Permutation (seq 0 (length dims
              Forall (fun p => p + 1 < length dims) sw.
 Proof. exact (permute_schedule_spec dims). Qed.
 
+(* to_qtt (mode_size 2) on modes 2^k_i, k_i >= 1: exactly sum k_i modes of size 2, same number of entries *)
+Theorem C10_qtt_modes (ks : list nat) : Forall (fun k => 1 <= k) ks ->
+  qtt_modes (map (fun k => 2 ^ k) ks) = repeat 2 (fold_right Nat.add 0 ks) /\
+  fold_right Nat.mul 1 (qtt_modes (map (fun k => 2 ^ k) ks)) = fold_right Nat.mul 1 (map (fun k => 2 ^ k) ks).
+Proof. exact (qtt_modes_spec ks). Qed.
+
 Section Values.
 Context {R : Type} {RO : RingOps R} {RL : RingLaws R}.
 
@@ -62,6 +68,7 @@ End Values.
 Print Assumptions C10_reshape_loop_spec.
 Print Assumptions C10_reshape_shape.
 Print Assumptions C10_permute_schedule.
+Print Assumptions C10_qtt_modes.
 Print Assumptions C10_merge_entry.
 Print Assumptions C10_flat_merge.
 Print Assumptions C10_split_entry.
